@@ -108,6 +108,7 @@ package alloctxn
 //@ spec (*AllocTxn).PostAbort
 //@   props C05 C09 C10 C11
 //@   requires atxnInv(atxn) && listsValid(atxn)
+//@   requires [A1-not-committed] cphase != 2 @C09 @C05 @C01
 //@   preserves [allocInv] allocInv() @C15 @C04
 //@   modifies abits
 //@   ensures [A3-inums] forall k uint64 :: k < len(atxn.allocInums) ==> !abits[theIalloc][atxn.allocInums[k]] @C05 @C09 @C10
